@@ -20,7 +20,7 @@ TRUSTED = [
 ]
 ASSUME = [
     "time scale 1, the host calls Execute after every clock advance (the property's stated schedule class), integer-millisecond clock",
-    "durations are multiples of 1/8 s so that uint64_t(float(d) * 1000.f) is exact",
+    "seconds-to-milliseconds conversion of a wait literal is modelled as uint64_t(strtof(text) * 1000.f) in binary32, computed exactly by the renderer (tools/vlib/schedgen.py engine_ms); durations include ones that are not exact in binary32 (0.7, 0.9, 0.35 …) with frames one millisecond before, on and after every due time",
     "theorems are about every history of timer operations; that the engine performs exactly those operations is checked by correspondence, not proved",
 ]
 
@@ -56,7 +56,8 @@ def exhaustive(quick):
 
 
 def check(ctx):
-    gens = [("timer", 300, 25000, timer_case), ("mixed", 100, 10000, mixed_case)]
+    gens = [("timer", 300, 25000, timer_case), ("mixed", 100, 10000, mixed_case),
+            ("inexact", 60, 3000, schedgen.gen_inexact_case)]
     rule = ("programs of 1-5 thread bodies (mark / wait d / thread / end, d in {0,0,125,250,500} ms) and mixed programs with "
             "waittill/notify, under random frame schedules (steps from {0,50,125,250,300,1000} ms) plus every duration "
             "assignment for 2-3 threads x 2 waits under fixed schedules; non-trivial = at least one marker printed; distinct by SHA-1")
